@@ -201,6 +201,7 @@ const (
 	EvStat
 	EvExecPanic
 	EvLogger
+	EvNested
 )
 
 const (
@@ -268,6 +269,8 @@ func (e Event) String() string {
 		return "executor task panicked"
 	case EvLogger:
 		return "logger.Error"
+	case EvNested:
+		return fmt.Sprintf("nested no-op compute %d (key=%d) saw (%d,%v)", e.Sub, e.Key, e.Old, e.Found)
 	}
 	return "?"
 }
@@ -309,6 +312,7 @@ type loadPlan struct {
 	Mask    uint64 // which requested keys a partial result contains
 	Extra   []int // extra keys volunteered
 	PanicOf int   // 0 error value, 1 string
+	Nested  int   // 1: Compute answering CancelOp, 2: ComputeIfAbsent answering cancel, run on the key from inside the loader
 }
 
 // Env wires one cache to the log.
@@ -553,9 +557,31 @@ type panicVal struct{ s string }
 
 func (p panicVal) Error() string { return p.s }
 
+// nested runs a computation that changes nothing on a key whose load is in flight (the loader runs
+// outside the table's locks, so this is legal): the load must be unaffected by it.
+func (e *Env) nested(which, key int) {
+	var saw int
+	var found bool
+	switch which {
+	case 1:
+		e.Cache.Compute(key, func(old int, f bool) (int, otter.ComputeOp) {
+			saw, found = old, f
+			return 0, otter.CancelOp
+		})
+	case 2:
+		saw, found = e.Cache.ComputeIfAbsent(key, func() (int, bool) { return 0, true })
+	default:
+		return
+	}
+	e.add(Event{Kind: EvNested, Sub: which, Key: key, Old: saw, Found: found})
+}
+
 func (e *Env) single(kind, key, old int) (int, error) {
 	e.add(Event{Kind: EvLoadEnter, Sub: kind, Key: key, Old: old})
 	p := e.plans[kind]
+	if kind == LkLoad { // (on a live key - a reload - the computation counts as a read and moves deadlines)
+		e.nested(p.Nested, key)
+	}
 	v := e.NewValue()
 	switch p.Out {
 	case OutValue:
@@ -582,6 +608,9 @@ func (e *Env) single(kind, key, old int) (int, error) {
 func (e *Env) bulk(kind int, keys, olds []int) (map[int]int, error) {
 	e.add(Event{Kind: EvLoadEnter, Sub: kind, Keys: append([]int(nil), keys...), Olds: append([]int(nil), olds...)})
 	p := e.plans[kind]
+	if len(keys) > 0 && kind == LkBulkLoad {
+		e.nested(p.Nested, keys[int(p.Mask>>32)%len(keys)])
+	}
 	switch p.Out {
 	case OutPanic:
 		e.add(Event{Kind: EvLoadExit, Sub: kind, Out: OutPanic})
